@@ -77,6 +77,9 @@ func (s *scen) method() string {
 		return "rpc.x"
 	case 2:
 		return "rpc.x"
+	case 3:
+		// unknown methods whose names need escaping when they are echoed in the error data
+		return pick(s.g, []string{"n\x01", "bell\a", "del\x7f", "\U000e0001tag", "q\"uote", "<&>", "é\u2028"})
 	default:
 		return "g"
 	}
@@ -137,7 +140,8 @@ func (s *scen) variantMember() string {
 	}
 	ver := pick(g, []string{`"2.0"`, `"2.0"`, `"2.0"`, `"2.0"`, `"2.0"`, `"2.0"`, "", `"1.0"`, "2", "null", `"2.00"`})
 	id := pick(g, []string{"", "", "1", "2", "-1", "1.5", "1e2", `"a"`, `""`, "null", "true", "[1]", `{"x":1}`, `"\u0031"`, "0"})
-	method := pick(g, []string{`"g"`, `"g"`, `"g"`, `"g"`, `"g"`, "", `"nope"`, `"rpc.x"`, `"rpc.serverInfo"`, `""`, "7", "null", `["g"]`})
+	method := pick(g, []string{`"g"`, `"g"`, `"g"`, `"g"`, `"g"`, "", `"nope"`, `"rpc.x"`, `"rpc.serverInfo"`, `""`, "7", "null", `["g"]`,
+		`"n\u0001x"`, "\"d\x7fl\"", `"\ud83d\ude00"`})
 	tok := s.newTok()
 	params := pick(g, []string{"[" + tok + "]", "[" + tok + "]", "[" + tok + "]", `{"t":` + tok + `}`, "", "null", tok, `"s` + tok + `"`, "true"})
 	if method == `"g"` && (params == "" || params == "null") {
